@@ -128,7 +128,8 @@ PROPS.update({
     "C10": e2("C10", "Limits 0..size+2; each (source, loader, limit) is loaded 2-3 times under different completion orders/concurrency; oracle: exactly min(max(n,k),size) entries = supplied + most recent others, never above the limit, identical across orders (which-ones skipped when a comparator tie sits on the cut).",
               expected_probes=["limit-zero", "limit-beyond-size", "fetch-main-blocked-on-semaphore"]),
     "C11": e2("C11", "Fault plan per scenario: none / one / few / many blocks, kinds notfound, error, undecodable, stall; excluded hashes; random or forced cancellation. Oracle: result == model closure over next and refs along retrievable non-excluded entries (subset when cancelled), no duplicate entry, no duplicate or excluded request, termination, nothing outstanding at return.",
-              level="fault_enumeration", expected_probes=["fetch-cancelled", "fault-cuts-off-history", "fetch-main-blocked-on-semaphore"]),
+              level="fault_enumeration", expected_probes=["fetch-cancelled", "fault-cuts-off-history", "fetch-main-blocked-on-semaphore", "timeout-fired", "returned-before-timeout"],
+              also=[dict(prop="C11T", variant="vt", share=0.2)]),
     "C12": e2("C12", "One stored block (manifest, head, root, anywhere) is corrupted at rest: structure-level (22 field paths x absent/null/two wrong types/extra/empty), bit flip, truncation, garbage, or another well-formed object; decoded in-process (every accessor, comparator, Verify exercised on whatever comes back) and loaded through the loaders under the driver; oracle: no panic (in-process or worker death), load succeeds and returns exactly the remaining retrievable history.",
               level="fault_enumeration", expected_probes=["corrupt-block-still-decodes"]),
     "C20": dict(engine="E3", variant="plain", level="exploration", quick_s=30, thorough_s=300,
